@@ -203,6 +203,21 @@ def check(ctx):
                 if isinstance(node.func, ast.Attribute) and node.func.attr == "join" and f.parent_func is None \
                         and f.cls is None or (isinstance(node.func, ast.Attribute) and node.func.attr == "join"):
                     joiners.add(f.fq.split(".<locals>")[0])
+    # a helper extracted from the validator (a function that did not exist when the rule was written) stands for its own callers
+    def _lift(cs, depth=0):
+        out_ = set()
+        for c_ in cs:
+            if ctx.prog.is_new_helper(c_.split(".<locals>")[0]) and depth < 4:
+                ups = set()
+                for g_ in ctx.prog.functions.values():
+                    gm = ctx.prog.modules[g_.module]
+                    if any(isinstance(n_, ast.Call) and ctx.prog.resolve_expr_name(gm, n_.func) == c_ for n_ in ast.walk(g_.node)):
+                        ups.add(g_.fq)
+                out_ |= _lift(ups - {c_}, depth + 1) if ups else {c_}
+            else:
+                out_.add(c_)
+        return out_
+    callers = _lift(callers)
     ctx.ob("R13.3", fq, None, callers == {val}, f"_merge_columns is called only from the shared validator (callers: "
            f"{sorted(c.split(':')[1] for c in callers)})", construct="merge callers")
     other = {j for j in joiners if j != fq}
